@@ -9,10 +9,25 @@ OPS = {'add': '+', 'sub': '-', 'mul': '*', 'idiv': '\\', 'mod': 'MOD', 'eq': '='
 NV = 6     # v0..v3 data, v4 / v5 loop counters handed out by the generator
 
 
+ARRAYS = [None]     # the arrays of the program being generated / rendered: [(base, lo, hi)], cells behind the NV variables
+
+
+def gen_arrays(rng):
+    out = []
+    base = NV
+    for _ in range(rng.choice([0, 1, 1, 2])):
+        lo = rng.choice([0, 1, -2, 3, -1])
+        hi = lo + rng.randint(0, 4)
+        out.append((base, lo, hi))
+        base += hi - lo + 1
+    return out
+
+
 class G:
     def __init__(self, rng, callees=(), in_proc=False, protect=()):
         self.rng = rng
         self.counters = 0
+        self.arrays = [] if in_proc else list(ARRAYS[0] or [])      # module-level arrays are not visible in procedures
         self.callees = list(callees)      # (index, nparams, recursive) of the procedures this body may call
         self.in_proc = in_proc
         self.protect = set(protect)       # variables the body must not assign (the descent variable of a recursive procedure)
@@ -44,6 +59,9 @@ class G:
 
     def expr(self, depth, small=False):
         r = self.rng
+        if self.arrays and r.random() < 0.12:
+            ai = r.randrange(len(self.arrays))
+            return ('X', ai, self.index(ai))
         if depth <= 0 or r.random() < 0.35:
             if r.random() < 0.5:
                 return ('N', r.choice([0, 1, 2, 3, 5, 7, -1, -2, 10] if small else [0, 1, 2, 3, 5, 7, -1, -2, 10, 100, 255, 1000, 32767, -32768 + 1]))
@@ -55,6 +73,20 @@ class G:
             return ('T', self.expr(depth - 1, small))
         op = r.choice(['add', 'sub', 'mul', 'add', 'sub', 'idiv', 'mod', 'eq', 'ne', 'lt', 'gt', 'le', 'ge', 'and', 'or', 'xor'])
         return ('B', op, self.expr(depth - 1, small), self.expr(depth - 1, small))
+
+    def index(self, ai):
+        """a subscript: mostly inside the bounds of the array, sometimes just outside, a variable, or anything at all"""
+        r = self.rng
+        _, lo, hi = self.arrays[ai]
+        k = r.random()
+        if k < 0.6:
+            return ('N', r.randint(lo, hi))
+        if k < 0.7:
+            return ('N', r.choice([lo - 1, hi + 1]))
+        if k < 0.9:
+            # a variable brought into the bounds: lo + (v MOD n) can still be below lo for a negative v
+            return ('B', 'add', ('N', lo), ('B', 'mod', ('V', r.choice([0, 1, 2, 3, 4, 5])), ('N', hi - lo + 1)))
+        return self.expr(1, True)
 
     def cond(self, d=1):
         # (the real parser's time grows exponentially with the depth of parentheses: conditions stay shallow)
@@ -80,6 +112,9 @@ class G:
             return self.call()
         if self.in_proc and depth > 0 and r.random() < 0.06:
             return ('I', self.cond(), [('XS',)], [])
+        if self.arrays and r.random() < 0.15:
+            ai = r.randrange(len(self.arrays))
+            return ('AI', ai, self.index(ai), self.expr(1))
         if depth <= 0 or k < 0.3:
             if r.random() < 0.5:
                 return ('P', self.expr(2))
@@ -249,9 +284,11 @@ def gen_nested_exit(rng):
 
 def gen(rng, depth=3):
     """-> (procedures, main block)"""
+    ARRAYS[0] = []
     if rng.random() < 0.3:
         return [], gen_nested_exit(rng)
     shapes, procs = gen_procs(rng) if rng.random() < 0.6 else ([], [])
+    ARRAYS[0] = gen_arrays(rng) if rng.random() < 0.5 else []
     g = G(rng, callees=shapes)
     prog = flatten(g.block(depth, False, False, rng.randint(1, 3)))
     if shapes:
@@ -286,6 +323,11 @@ def gen(rng, depth=3):
         # END inside a procedure ends the whole program
         b = rng.choice(procs)['body']
         b.insert(rng.randrange(len(b) + 1), ('I', ('B', 'eq', ('V', rng.randrange(4)), ('N', rng.randint(0, 2))), [('E',)], []))
+    if ARRAYS[0]:
+        # every element is shown at the end
+        for ai, (b_, lo, hi) in enumerate(ARRAYS[0]):
+            prog += [('P', ('X', ai, ('N', k))) for k in range(lo, hi + 1)]
+        return procs, prog, list(ARRAYS[0])
     return procs, prog
 
 
@@ -309,6 +351,8 @@ def src_expr(e):
         return f'(-{src_expr(e[1])})'
     if e[0] == 'T':
         return f'(NOT {src_expr(e[1])})'
+    if e[0] == 'X':
+        return f'a{e[1]}%({src_expr(e[2])})'
     return f'({src_expr(e[2])} {OPS[e[1]]} {src_expr(e[3])})'
 
 
@@ -376,15 +420,18 @@ def src_block(block, ind):
             out.append(pad + 'END')
         elif k == 'XS':
             out.append(pad + 'EXIT SUB')
+        elif k == 'AI':
+            out.append(f'{pad}a{s[1]}%({src_expr(s[2])}) = {src_expr(s[3])}')
         elif k == 'C':
             out.append(f'{pad}CALL p{s[1]}' + ('(' + ', '.join(src_arg(a) for a in s[2]) + ')' if s[2] else ''))
     return out
 
 
 def to_source(program):
-    procs, prog = program
+    procs, prog = program[0], program[1]
+    arrays = program[2] if len(program) > 2 else []
     NP[0] = None
-    lines = src_block(prog, 0)
+    lines = [f'DIM a{i}%({lo} TO {hi})' for i, (b_, lo, hi) in enumerate(arrays)] + src_block(prog, 0)
     for i, pr in enumerate(procs):
         NP[0] = pr['np']
         lines += ['', f'SUB p{i}' + ('(' + ', '.join(f'q{j}%' for j in range(pr['np'])) + ')' if pr['np'] else '')]
@@ -401,6 +448,9 @@ def enc_expr(e):
         return f'V {e[1]}'
     if e[0] in 'GT':
         return f'{e[0]} {enc_expr(e[1])}'
+    if e[0] == 'X':
+        b_, lo, hi = ARRAYS[0][e[1]]
+        return f'X {b_} {lo} {hi} {enc_expr(e[2])}'
     return f'B {e[1]} {enc_expr(e[2])} {enc_expr(e[3])}'
 
 
@@ -425,6 +475,9 @@ def enc_stmt(s):
     if k == 'S':
         cases = ' '.join(f'{len(cl)} ' + ' '.join(enc_clause(c) for c in cl) + ' ' + enc_block(b) for cl, b in s[2])
         return f'S {enc_expr(s[1])} {len(s[2])} {cases} {enc_block(s[3])}'.replace('  ', ' ')
+    if k == 'AI':
+        b_, lo, hi = ARRAYS[0][s[1]]
+        return f'AI {b_} {lo} {hi} {enc_expr(s[2])} {enc_expr(s[3])}'
     if k == 'C':
         return f'C {s[1]} {len(s[2])} ' + ' '.join(f'R {a[1]}' if a[0] == 'R' else 'X ' + enc_expr(a[1]) for a in s[2]) if s[2] else f'C {s[1]} 0'
     return k
@@ -437,6 +490,8 @@ def enc_clause(c):
 
 
 def to_request(program, fuel=4000):
-    procs, prog = program
+    procs, prog = program[0], program[1]
+    ARRAYS[0] = program[2] if len(program) > 2 else []
+    ncells = sum(hi - lo + 1 for _, lo, hi in ARRAYS[0])
     ptxt = ' '.join(f'{pr["np"]} {NV - pr["np"]} {enc_block(pr["body"])}' for pr in procs)
-    return f'src {fuel} {NV} {len(procs)} {ptxt + " " if procs else ""}{enc_block(prog)}'
+    return f'src {fuel} {NV + ncells} {len(procs)} {ptxt + " " if procs else ""}{enc_block(prog)}'
